@@ -78,6 +78,9 @@ var msgClasses = map[string]string{
 }
 
 func classOfMsg(s string) string {
+	if p := strings.TrimSuffix(s, ": context deadline exceeded"); p != s {
+		return "ctx:" + classOfMsg(p)
+	}
 	for k, v := range msgClasses {
 		if v == s {
 			return k
@@ -205,8 +208,12 @@ func (st *e2eState) buildError() error {
 	switch o.Kind {
 	case "plain":
 		return errors.New(msgClasses[o.Msg])
-	case "err", "wrapped":
-		e := connect.NewError(connect.Code(o.Code), errors.New(msgClasses[o.Msg]))
+	case "err", "wrapped", "ctxwrap":
+		cause := errors.New(msgClasses[o.Msg])
+		if o.Kind == "ctxwrap" { // an already coded error whose cause happens to be a context error
+			cause = fmt.Errorf("%s: %w", msgClasses[o.Msg], context.DeadlineExceeded)
+		}
+		e := connect.NewError(connect.Code(o.Code), cause)
 		for i := 1; i <= o.Ndet; i++ {
 			a, err := anypb.New(wrapperspb.String(detailText(i)))
 			if err != nil {
